@@ -791,5 +791,5 @@ impl Check for IoMachine {
 }
 
 pub fn checks(tier: Tier) -> Vec<Box<dyn Check>> {
-    vec![Box::new(Tables), Box::new(Shapes::new(tier)), Box::new(IoMachine::new(tier)), Box::new(crate::c06sig::Signatures::new(tier))]
+    vec![Box::new(Tables), Box::new(Shapes::new(tier)), Box::new(IoMachine::new(tier)), Box::new(crate::c06sig::Signatures::new(tier)), Box::new(crate::c06call::Callers::new())]
 }
